@@ -20,7 +20,7 @@ func (r *zzRecorder) Header() http.Header {
 	return r.header
 }
 func (r *zzRecorder) Write(b []byte) (int, error) { r.body = append(r.body, b...); return len(b), nil }
-func (r *zzRecorder) WriteHeader(code int)         { r.status = code }
+func (r *zzRecorder) WriteHeader(code int)        { r.status = code }
 
 var zzC19Paths = []string{"/api/ledger/l1/transactions", "/api/ledger/v2/l1/transactions", "/api/ledger/v2/l1/_bulk", "/api/ledger/v2/l1/transactions/3/revert"}
 var zzC19Queries = []string{"", "preview=true", "dryRun=true", "preview=true&dryRun=true", "preview=false&dryRun=1"}
